@@ -17,6 +17,8 @@ static inline uint64_t spec_bits(double d) { union { double d; uint64_t u; } p; 
 /* bit-exact equality of two double values (ensures clauses) */
 #define DEQ(a, b) (spec_bits(a) == spec_bits(b))
 double G_ex, G_ey;   /* image of vertex GK under the map, computed once at entry (invariants may not call) */
+uint64_t GW_minx, GW_maxx, GW_miny, GW_maxy;   /* ghost witnesses: index of the vertex attaining each side */
+double *G_pc;          /* entry value of the coordinate pointer a loop advances */
 double G_ca, G_sa;   /* cos / sin of the angle argument (uninterpreted), taken at entry */
 /* scale about a centre: (p - c) * s + c */
 #define S_AX(p, c, s) VF_FADD(VF_FMUL(VF_FSUB(p, c), s), c)
